@@ -24,7 +24,7 @@ Inductive rx_result :=
 | RxOk (pattern : bytes)
 | RxEmptyContent            (* ErrEmptySchema (after fix 30cdc83) *)
 | RxBadStart                (* ErrRegexUnexpectedStart at 0 *)
-| RxNoEnd.                  (* ErrRegexUnexpectedEnd at the last byte (also for the empty pattern "//") *)
+| RxNoEnd.                  (* ErrRegexUnexpectedEnd at the last byte *)
 
 Definition extract (content : bytes) : rx_result :=
   match content with
@@ -32,8 +32,7 @@ Definition extract (content : bytes) : rx_result :=
   | c :: r =>
     if is_slash c then
       match scan_pattern false r [] with
-      | Some [] => RxNoEnd
-      | Some p => RxOk p
+      | Some p => RxOk p            (* also the empty pattern "//" (fix: the closing slash is remembered, not inferred from the pattern) *)
       | None => RxNoEnd
       end
     else RxBadStart
